@@ -254,8 +254,19 @@ func checkC13(p *Prog, r *Report) {
 		{unify: true, name: "measurements", a: "hermes.ExtractMeasuredDataTxt", b: "hermes.ExtractMeasuredDataCSV", destOK: prefixIn("GlobalVarsMain."), keep: prefixIn("GlobalVarsMain."), withIdx: false, min: 10,
 			allowed: map[string]string{}},
 	}
+	siblingPairs(p, r, "C13.", pairs)
+	c13Guards(p, r)
+	c13Converter(p, r)
+	c13Weather(p, r)
+	c13Rotation(p, r)
+	c13StaleItem(p, r)
+	c13Headers(p, r, "C13.headers")
+	c13RestOfC13(p, r)
+}
+
+func siblingPairs(p *Prog, r *Report, prefix string, pairs []sibPair) {
 	for _, sp := range pairs {
-		r.Rule("C13."+sp.name, fmt.Sprintf("sibling readers %s and %s fill the same destinations with the same value shape (scale factor, parse kind, dependencies on other fields) at the same index shape; accepted differences are listed with a reason", strings.TrimPrefix(sp.a, "hermes."), strings.TrimPrefix(sp.b, "hermes.")), sp.min)
+		r.Rule(prefix+sp.name, fmt.Sprintf("sibling readers %s and %s fill the same destinations with the same value shape (scale factor, parse kind, dependencies on other fields) at the same index shape; accepted differences are listed with a reason", strings.TrimPrefix(sp.a, "hermes."), strings.TrimPrefix(sp.b, "hermes.")), sp.min)
 		sigUnify = sp.unify
 		sigGuards = sp.guards
 		A := collectStores(p, sp.a, sp.destOK, sp.keep, sp.withIdx)
@@ -300,12 +311,9 @@ func checkC13(p *Prog, r *Report) {
 	}
 	sigUnify = false
 	sigGuards = false
-	c13Guards(p, r)
-	c13Converter(p, r)
-	c13Weather(p, r)
-	c13Rotation(p, r)
-	c13StaleItem(p, r)
-	c13Headers(p, r, "C13.headers")
+}
+
+func c13RestOfC13(p *Prog, r *Report) {
 	// the four date formats are encodings of the same dates: sibling agreement of the format arms (shared with C12.R6)
 	c12ForwardArms(p, r, "C13.date-arms")
 	// the three weather layouts meet in one normalisation: it must treat every record of every loaded year alike,
@@ -324,6 +332,14 @@ func checkC13(p *Prog, r *Report) {
 	lostWrites(p, r, "C13.lost-writes")
 	c13MeasurementIdFilter(p, r)
 	c13YamlWriter(p, r)
+}
+
+// soilSiblingPair: the two soil readers fill the same destinations with the same value shape (shared with C15.R7)
+func soilSiblingPair() sibPair {
+	return sibPair{name: "soil", a: "hermes.LoadSoil", b: "hermes.LoadSoilCSV", destOK: prefixIn("soildata."), keep: prefixIn("soildata."), withIdx: true, min: 20,
+		allowed: map[string]string{
+			"soildata.BULK[i]": "the csv layout may give a measured bulk density directly; the text layout always goes through the class table (both call the same class helper afterwards)",
+		}}
 }
 
 func short(k string) string { return strings.TrimPrefix(k, "hermes.") }
